@@ -82,7 +82,7 @@ def run(ctx):
         ctx.count((c, p), len(c) > 0, klass)
         for key, what in fails:
             nviol[key] = nviol.get(key, 0) + 1
-            if nviol[key] <= 3 or key not in (X.K_WARN_FAILS, X.K_ICE_ESC, X.K_ICE_PASSES):
+            if nviol[key] <= 3 or key not in (X.K_WARN_FAILS, X.K_ICE_ESC, X.K_ICE_PASSES, X.K_ICE_TAIL, X.K_ICE_RESERVED):
                 ctx.violation(key, what, {"s": c.hex() if len(c) <= 4000 else c[:2000].hex() + "...", "len": len(c), "path": p,
                                           "text": repr(c[:200]), "ok": o.get("ok"),
                                           "diags": [(d["level"], d["msg"][:60], [sp[:2] for sp in d["spans"]]) for d in o.get("diags", [])][:12]})
